@@ -39,12 +39,23 @@ STRENGTH = {
     'C17c': 'every datagram kind also delivered twice (`_x2`); unknown exchange types sealed by the peer and in the clear to a half-open initiator IKE_SA',
     'C18c': '(anticipated) `Cookie.tla` `Cut`: the right cookie cut to 0 / 1 / 16 octets or extended by one',
     'C19c': '`Config.tla` `Addrs` gained an address of the other family',
+    'C02d': '`Auth.tla` `ImpIMsg1` / `ImpIMsg3`: the attacker starts the exchange itself and forges the initiator\'s AUTH - or sends CREATE_CHILD_SA / INFORMATIONAL instead of IKE_AUTH',
+    'C03d': 'every 5th forgery of the menu also from an address that is not the peer\'s; the snapshot includes the addresses of the IKE_SA',
+    'C05d': '`Wire.tla`: Nonce payloads of 255 and 256 octets (both ends of the range of 3.9)',
+    'C09d': '(anticipated) `Ike.tla` action `TimerIdle`: DPD / rekey / lifetime deadlines coming due while the IKE_SA is not established; scenario `estab_idle`; also in recorded traces',
+    'C11d': '`Negotiate.tla` `InitiatorAccepts` vectors: the requester installs an answer iff it covers every type its policy requires',
+    'C13d': '`IkeTimers.tla` action `Noise`: unauthenticated datagrams with the IKE_SA\'s SPIs move no deadline',
+    'C15d': 'ACQUIRE mapping with an IKE_SA lifetime far below the entries\' lifetimes',
+    'C16d': '(anticipated) divergences right after `CtlExpire` in the `Ike.tla` replay belong to C16',
+    'C17d': 'hostile kind `acquire_legit_peer` (a kernel ACQUIRE towards the legitimate peer at any moment); time passes in the closing phase of a schedule',
+    'C18d': '(anticipated) `Cookie.tla` `Fills`: the half-open IKE_SAs come from distinct initiators, one replayed request, or one SPI with fresh nonces',
+    'C19d': '`Config.tla`: identities that a resolver can turn into an address (a resolvable name, `10.1`, `1234`) are FQDN identities',
 }
-ANTICIPATED = {'C13c', 'C18c'}
+ANTICIPATED = {'C13c', 'C18c', 'C09d', 'C16d', 'C18d'}
 
 
 def main():
-    rows, counts = [], {1: [0, 0], 2: [0, 0], 3: [0, 0]}
+    rows, counts = [], {1: [0, 0], 2: [0, 0], 3: [0, 0], 4: [0, 0]}
     for p in sorted(glob.glob(os.path.join(VERIF, 'seeded', '*', 'meta.json'))):
         m = json.load(open(p))
         k = m['name']
@@ -58,7 +69,7 @@ def main():
     total = sum(c[1] for c in counts.values())
     out = ['### 0.7 Seeded changes: which check catches which change\n',
            f'{total} changes were written by fresh sub-agents (one per property and round) that saw **only the text of the property** and a scratch worktree of `/repo` -',
-           'nothing from `/verif`; rounds 2 and 3 were additionally told which ideas the earlier rounds had used and to stay away from them.  Each change compiles, leaves the',
+           'nothing from `/verif`; rounds 2 to 4 were additionally told which ideas the earlier rounds had used and to stay away from them.  Each change compiles, leaves the',
            'repository\'s test suite at 176 passed / 11 failed, comes with a demonstration (`demo_seed.py`: PASS on the original, FAIL on the change) and was confirmed by',
            '`harness/seedeval.py` in a fresh worktree before the check of its property was run on it (`VERIF_REPO=<worktree>`, quick tier).  Patch, demonstration and',
            '`meta.json` (what it needs to manifest, what was run, the outcome before and after strengthening) are in `/verif/seeded/<id>/`; none of them was ever applied to `/repo`.\n',
